@@ -352,6 +352,91 @@ func TestC20(t *testing.T) {
 			}
 			c.c20LongCheck(s, "long-lines", ls, fresh)
 		})
+		// accumulation: one failing line repeated many times (so that anything a failing line leaves behind
+		// adds up), then probe lines; every line must be answered as in a fresh session
+		na := 30
+		if c.Thorough {
+			na = 300
+		}
+		freshText := map[string]string{}
+		c.Rapid("repeated-failures", na, func(rt *rapid.T, s *Sub) {
+			deepFail := func(n int) string {
+				return fmt.Sprintf("%s d(n) { %s (n > 0) { d(n - 1); } %s { nope; } } d(%d);", bn.KwFun, bn.KwIf, bn.KwElse, n)
+			}
+			deepFailRet := func(n int) string {
+				return fmt.Sprintf("%s d(n) { %s (n > 0) { %s d(n - 1) + 1; } %s 1 - nil; } %s d(%d);", bn.KwFun, bn.KwIf, bn.KwReturn, bn.KwReturn, bn.KwPrint, n)
+			}
+			deepOK := func(n int) string {
+				return fmt.Sprintf("%s s(n) { %s (n == 0) { %s 0; } %s n + s(n - 1); } %s s(%d);", bn.KwFun, bn.KwIf, bn.KwReturn, bn.KwReturn, bn.KwPrint, n)
+			}
+			var failing []string
+			for _, l := range c20Pool {
+				if l.class == "runtime" || l.class == "syntax" || l.class == "lexical" {
+					failing = append(failing, l.text)
+				}
+			}
+			depth := rapid.SampledFrom([]int{1, 50, 500, 3000}).Draw(rt, "depth")
+			failing = append(failing, deepFail(depth), deepFailRet(depth), deepFail(depth), deepFailRet(depth))
+			fl := rapid.SampledFrom(failing).Draw(rt, "failingLine")
+			reps := rapid.SampledFrom([]int{1, 3, 10, 100, 1000}).Draw(rt, "repetitions")
+			if strings.Contains(fl, " d(n) ") && reps*depth > 200000 {
+				reps = 200000 / depth
+			}
+			var lines []string
+			for i := 0; i < reps; i++ {
+				lines = append(lines, fl)
+			}
+			np := rapid.IntRange(1, 3).Draw(rt, "probes")
+			for i := 0; i < np; i++ {
+				if rapid.Bool().Draw(rt, "deepProbe") {
+					lines = append(lines, deepOK(rapid.SampledFrom([]int{10, 1000, 5000}).Draw(rt, "probeDepth")))
+				} else {
+					lines = append(lines, c20Pool[rapid.IntRange(0, len(c20Pool)-1).Draw(rt, "probe")].text)
+				}
+			}
+			desc := fmt.Sprintf("%d x %s\n%s", reps, fl, strings.Join(lines[reps:], "\n"))
+			c.Ev.Case("repeated-failures", desc, reps >= 10, fmt.Sprintf("repetitions-%d", reps))
+			want := func(text string) (string, bool) {
+				if w, ok := freshText[text]; ok {
+					return w, true
+				}
+				parts, status, _, ok := c.c20Session([]string{text}, true)
+				if !ok || status != 0 || len(parts) != 3 {
+					return "", false
+				}
+				freshText[text] = parts[1]
+				return parts[1], true
+			}
+			parts, status, raw, ok := c.c20Session(lines, true)
+			fail := func(sig, msg, exp string) {
+				s.Violation(Replay{Check: "repeated-session", Sig: sig, Source: desc, Note: msg, Expected: exp, Observed: fmt.Sprintf("status=%d output=%q", status, clip(raw[max(0, len(raw)-600):], 600)),
+					Extra: map[string]string{"reps": fmt.Sprint(reps)}})
+			}
+			if !ok || status != 0 {
+				fail("status", "the session must end with status 0 at end of input", "0")
+				return
+			}
+			nLines := 0
+			for _, l := range lines {
+				_ = l
+				nLines++
+			}
+			if len(parts) != nLines+2 {
+				fail("prompts", fmt.Sprintf("expected %d prompts, output splits into %d pieces", nLines+1, len(parts)-1), "")
+				return
+			}
+			for i, l := range lines {
+				w, ok := want(l)
+				if !ok {
+					fail("fresh", fmt.Sprintf("the line %q alone does not give a well-formed single-line session", l), "")
+					return
+				}
+				if parts[i+1] != w {
+					fail("response", fmt.Sprintf("line %d (%q) answered %q; as the only line of a fresh session it is answered %q", i+1, clip(l, 120), clip(parts[i+1], 200), clip(w, 200)), clip(w, 200))
+					return
+				}
+			}
+		})
 		n := 300
 		if c.Thorough {
 			n = 2500
